@@ -1543,6 +1543,10 @@ func (tx *Transaction) AuditLog() *auditlog.Log {
 				content, err := io.ReadAll(reader)
 				if err == nil {
 					al.Transaction_.Request_.Body_ = string(content)
+				} else {
+					// The record goes out without part C: say so instead of
+					// silently dropping the body.
+					tx.debugLogger.Error().Err(err).Msg("Failed to read request body for audit log")
 				}
 			}
 
